@@ -3,6 +3,11 @@
  *
  * ops (one per line; same protocol as `librfn_model sched`):
  *   reset | run f | atomic f | kill f | next T ret item*        f < 8, T / due times: decimal integers (taken mod 2^32)
+ *   loop T1 T2 ret item*    ONE iteration of the real fibre_scheduler_main_loop() (posix/fibre_posix.c, included
+ *                           below) on a virtual clock: the 1st time_now() returns T1, the 2nd T2; usleep(d) records d
+ *                           and leaves the infinite loop by longjmp; going round without sleeping (a 2nd call of
+ *                           fibre_scheduler_next or a 3rd time_now()) records "none" and leaves the same way.
+ *                           Output: the `next` line of that pass + " sleep=<d>" | " sleep=none".
  *   ret in y w e f (yielded waiting exited failed); item in r:g a:g k:g t:D p:L ; "--" echoes "--"
  * Every fibre's entry point is a script interpreter: it performs the items of the pass's script, logs
  * (fibre id, priv at entry, results), stores priv when told to, and returns `ret`.
@@ -13,7 +18,43 @@
 #include <stdint.h>
 #include <signal.h>
 #include <unistd.h>
+#include <setjmp.h>
 #include "fibre.c"
+
+/* ---- virtual clock + usleep for the POSIX main loop (time_posix.c is NOT linked: these are the only
+ * time_now()/usleep() of the executable; util.c's ratelimit_check() would use them too) ---- */
+static jmp_buf loop_exit;
+static int in_loop, clock_calls, loop_passes;
+static uint32_t clock_t1, clock_t2, loop_wake;
+static long long loop_slept;		/* -1 = went round without sleeping */
+
+uint32_t time_now(void)
+{
+	if (!in_loop) return 0;
+	clock_calls++;
+	if (clock_calls == 1) return clock_t1;
+	if (clock_calls == 2) return clock_t2;
+	loop_slept = -1;
+	longjmp(loop_exit, 1);
+}
+
+int usleep(useconds_t d)
+{
+	if (!in_loop) return 0;
+	loop_slept = (long long)d;
+	longjmp(loop_exit, 1);
+}
+
+/* the main loop's call of fibre_scheduler_next goes through here so that the value it got is printed
+ * (an include-side macro; nothing is added to /repo) and a second pass is not started */
+static uint32_t loop_pass(uint32_t t)
+{
+	if (loop_passes++ > 0) { loop_slept = -1; longjmp(loop_exit, 1); }
+	return loop_wake = fibre_scheduler_next(t);
+}
+#define fibre_scheduler_next loop_pass
+#include "posix/fibre_posix.c"
+#undef fibre_scheduler_next
 
 #define NF 8
 #define MAXSCRIPT 64
@@ -106,9 +147,10 @@ int main(void)
 		} else if (!strcmp(op, "kill")) {
 			if (parse_fid(strtok(NULL, " \n"), &f) && !strtok(NULL, " \n")) puts(fibre_kill(&F[f]) ? "1" : "0");
 			else puts("bad-op");
-		} else if (!strcmp(op, "next")) {
-			long long T; int ok = 1; char *t;
+		} else if (!strcmp(op, "next") || !strcmp(op, "loop")) {
+			long long T, T2 = 0; int ok = 1, loop = op[0] == 'l'; char *t;
 			if (!parse_ll(strtok(NULL, " \n"), &T)) ok = 0;
+			if (loop && !parse_ll(strtok(NULL, " \n"), &T2)) ok = 0;
 			t = strtok(NULL, " \n");
 			if (!t || strlen(t) != 1 || !strchr("ywef", t[0])) ok = 0;
 			else sret = t[0] == 'y' ? FIBRE_STATE_YIELDED : t[0] == 'w' ? FIBRE_STATE_WAITING
@@ -124,11 +166,22 @@ int main(void)
 			}
 			if (!ok) { puts("bad-op"); continue; }
 			dispatched = -1;
-			uint32_t r = fibre_scheduler_next((uint32_t)T);
+			uint32_t r;
+			if (loop) {
+				clock_t1 = (uint32_t)T; clock_t2 = (uint32_t)T2;
+				clock_calls = loop_passes = 0; loop_slept = -1; loop_wake = 0;
+				in_loop = 1;
+				if (!setjmp(loop_exit)) fibre_scheduler_main_loop();	/* left by longjmp only */
+				in_loop = 0;
+				r = loop_wake;
+			} else r = fibre_scheduler_next((uint32_t)T);
 			fibre_t *s = fibre_self();
 			int self = s ? (int)(s - F) : -1;
-			if (dispatched < 0) printf("idle self=%d wake=%u\n", self, (unsigned)r);
-			else printf("%s self=%d wake=%u\n", outbuf, self, (unsigned)r);
+			if (dispatched < 0) printf("idle self=%d wake=%u", self, (unsigned)r);
+			else printf("%s self=%d wake=%u", outbuf, self, (unsigned)r);
+			if (!loop) puts("");
+			else if (loop_slept < 0) puts(" sleep=none");
+			else printf(" sleep=%lld\n", loop_slept);
 		} else puts("bad-op");
 	}
 	return 0;
